@@ -231,6 +231,8 @@ pub fn run(ctx: &Ctx) {
     ctx.sse_vec("fixed_sizes", "boundary sizes x both modes, full reads", fixed, check);
     ctx.sse_vec("pipe_like_reads", "512-byte and half-buffer reads (a short read is a whole chunk): the lag bound counts chunks, not bytes", vec![Case { size: 300_000, mode: Mode::Key, seed: 11, read_var: 3 }, Case { size: 100_000, mode: Mode::Pass, seed: 12, read_var: 3 }, Case { size: 1 << 20, mode: Mode::Key, seed: 13, read_var: 2 }, Case { size: 1 << 20, mode: Mode::Key, seed: 14, read_var: 1 }], check);
     ctx.pbt("sizes", ctx.n(48, 300), || (prop_oneof![2 => 0u64..400_000, 6 => (17u32..=maxlog, 0u64..1000).prop_map(|(e, m)| (1u64 << e) + ((1u64 << e) * m / 1000))], prop_oneof![3 => Just(Mode::Key), 1 => Just(Mode::Pass)], any::<u64>(), 0u8..4).prop_map(|(size, mode, seed, read_var)| { let size = if read_var == 3 { size.min(2 << 20) } else { size }; Case { size, mode, seed, read_var } }), check);
+    { let mut hh = Vec::new(); for mode_pass in [false, true] { for keep in 0..4usize { for lf in [65537u32, 1 << 20, 1 << 27, 1 << 31, u32::MAX] { hh.push(super::c09::Case::HostileHeader { mode_pass, len_field: lf, flag: 0, body: 16, keep_records: keep }); } } }
+      ctx.sse_vec("forged_length_fields", "a length field of 65537 .. 2^32-1 after 0..3 authentic 64 KiB records: heap and largest allocation stay at the honest level (shared with C09)", hh, super::c09::check); }
     ctx.sse_vec("data_after_final_chunk", "a complete file followed by 0 B .. 64 MiB of further input, both modes: decryption memory stays at the small-file level", [0u64, 1, 70_000, 1 << 20, 64 << 20].iter().flat_map(|&tail| [Mode::Key, Mode::Pass].map(move |mode| TailCase { tail, mode, seed: tail + 7 })).collect(), check_tail);
     let pm = if ctx.quick() { 64 } else { 1024 };
     ctx.sse_vec("process_peak_rss", &format!("the binary on a sparse {} MiB file vs a 1 MiB file, both modes: peak RSS (GNU time) must not grow", pm), vec![ProcCase { mib: pm, pass_mode: false }, ProcCase { mib: pm, pass_mode: true }], check_process);
